@@ -47,6 +47,12 @@ def Inside (root p : Path) : Prop := isAbs p = true ∧ resolve root <+: resolve
 def StrictlyInside (root p : Path) : Prop :=
   isAbs p = true ∧ ∃ x xs, resolve p = resolve root ++ x :: xs
 
+/-- A proper directory entry name: not empty, not `.`, not `..`, no separator. -/
+def Normal (s : Path) : Prop := s ≠ [] ∧ s ≠ dot ∧ s ≠ dotdot ∧ (47 : UInt8) ∉ s
+
+/-- ASCII string literal as a path (for examples). -/
+def B (s : String) : Path := s.toList.map (fun c => UInt8.ofNat c.toNat)
+
 instance (root p : Path) : Decidable (Inside root p) := by unfold Inside; exact inferInstance
 
 end PB.Paths
